@@ -414,7 +414,9 @@ func c09CoSi(r *mon.R, j c09Job) {
 		c.judge(rng, cl, c.pubEnc, c.as, msg, H.sig, pol, "honest")
 	}
 	lax := thr(1) // for the mutations the cryptographic check decides
-	J := func(class string, msg, sig []byte, sub string) { c.judge(rng, class, c.pubEnc, c.as, msg, sig, lax, sub) }
+	J := func(class string, msg, sig []byte, sub string) {
+		c.judge(rng, class, c.pubEnc, c.as, msg, sig, lax, sub)
+	}
 
 	// ---- message
 	J("message/minimally-different", c09NearMsg(rng, msg), H.sig, "near")
